@@ -103,7 +103,7 @@ var numPool = []string{"0", "1", "2", "3", "5", "7", "10", "-1", "100", "1677721
 
 type attrT struct{ name, typ string }
 
-var dataAttrs = []attrT{{"a", "S"}, {"A", "S"}, {"b", "S"}, {"n", "N"}, {"c", "N"}, {"f", "BOOL"}, {"u", "NULL"}, {"ss", "SS"}, {"ns", "NS"}, {"m", "M"}, {"l", "L"}, {"bin", "B"}, {"bs", "BS"}}
+var dataAttrs = []attrT{{"a", "S"}, {"A", "S"}, {"b", "S"}, {"n", "N"}, {"c", "N"}, {"f", "BOOL"}, {"u", "NULL"}, {"ss", "SS"}, {"ns", "NS"}, {"m", "M"}, {"l", "L"}, {"l2", "L"}, {"bin", "B"}, {"bs", "BS"}}
 
 // Gen turns PRNG draws into worlds and commands.
 type Gen struct {
@@ -402,7 +402,7 @@ func (g *Gen) Setup() []*Cmd {
 			}
 			def := g.defs[name][0]
 			out = append(out, &Cmd{ID: g.id(), Actor: "setup", Op: "Create", C: c, T: name, Def: &def,
-				Helper: g.P.Weights["create"] > 0 && len(def.Indexes) == 0 && def.Hash.Type == "S" && (def.Range == nil || def.Range.Type == "S") && def.Billing == "PAY_PER_REQUEST" && g.R.Chance(0.3)})
+				Helper: len(def.Indexes) == 0 && def.Hash.Type == "S" && (def.Range == nil || def.Range.Type == "S") && def.Billing == "PAY_PER_REQUEST" && g.R.Chance(0.3)})
 			if g.P.Big {
 				keys := g.W.Tables[i].KeysOf(def)
 				n := g.R.Range(62, 68)
@@ -721,12 +721,28 @@ func (g *Gen) cond(name string, def TableDef, depth int) *Expr {
 				return &Expr{Op: pick(r, []string{"begins", "contains"}), Path: p, Vals: []AV{v}}
 			}
 			fallthrough
+		case 5:
+			if r.Chance(0.5) {
+				// attribute_type answers false for an absent attribute: usable anywhere
+				return &Expr{Op: "type", Path: p, Vals: []AV{S(pick(r, []string{c.typ, c.typ, "S", "N", "BOOL", "SS", "L", "M"}))}}
+			}
+			isKey := c.name == def.Hash.Name || (def.Range != nil && c.name == def.Range.Name)
+			if c.typ == "S" && isKey && filter {
+				// size() needs the attribute: key attributes, which every stored item has
+				return &Expr{Op: "size" + pick(r, []string{"=", "<>", "<", "<=", ">", ">="}), Path: p, Vals: []AV{N(pick(r, []string{"0", "1", "2", "3"}))}}
+			}
+			fallthrough
 		default:
 			return &Expr{Op: pick(r, []string{"=", "=", "<>", "<", "<=", ">", ">="}), Path: p, Vals: []AV{val()}}
 		}
 	case "BOOL":
 		if r.Chance(0.5) {
 			return &Expr{Op: "=", Path: p, Vals: []AV{Bool(r.Chance(0.5))}}
+		}
+	case "SS":
+		if r.Chance(0.5) {
+			// equality of sets: same members, whatever their order
+			return &Expr{Op: pick(r, []string{"=", "<>"}), Path: p, Vals: []AV{pick(r, []AV{g.value("SS"), SSet(pick(r, strPool)), SSet("abc", "b"), SSet("b", "a")})}}
 		}
 	case "M":
 		if r.Chance(0.5) {
@@ -843,6 +859,10 @@ func (g *Gen) update(name string, def TableDef, cur Item) Update {
 					a = UpdAction{Kind: "SET", Path: Path{Attr: "l", Sub: []PathElem{{IsI: true, Idx: r.Intn(len(v.L))}}}, Form: "val", Val: g.value("S")}
 				case 1:
 					a = UpdAction{Kind: "SET", Path: P("l"), Form: "append", Src: &Path{Attr: "l"}, Val: List(g.value("S"))}
+					if r.Chance(0.35) {
+						// the result goes to another attribute: the source list stays as it is
+						a.Path = P("l2")
+					}
 				default:
 					if len(v.L) < 2 {
 						continue
@@ -859,10 +879,14 @@ func (g *Gen) update(name string, def TableDef, cur Item) Update {
 				continue
 			}
 		}
-		if used[a.Path.Attr] {
+		if used[a.Path.Attr] || (a.Src != nil && a.Src.Attr != a.Path.Attr && used[a.Src.Attr]) {
 			continue
 		}
 		used[a.Path.Attr] = true
+		if a.Src != nil {
+			// (no other action of the expression may assign what this one reads)
+			used[a.Src.Attr] = true
+		}
 		if !a.Path.Alias && r.Chance(0.2) {
 			// any action may reach its attribute through a #name (also the first
 			// element of a document path)
@@ -999,6 +1023,7 @@ func (g *Gen) try(m *Model, eng *Engine) *Cmd {
 			cmd.RetOnFail = r.Chance(0.3)
 			g.biasCond(cmd, mt, def, cmd.Item)
 			g.attrOperandCond(cmd, mt, def, cmd.Item)
+			g.fnCond(cmd, mt, def, cmd.Item)
 		}
 	case "update", "updcond":
 		cmd.Op, cmd.Actor = "Update", "writer"
@@ -1026,6 +1051,7 @@ func (g *Gen) try(m *Model, eng *Engine) *Cmd {
 			cmd.RetOnFail = r.Chance(0.3)
 			g.biasCond(cmd, mt, def, cmd.Key)
 			g.attrOperandCond(cmd, mt, def, cmd.Key)
+			g.fnCond(cmd, mt, def, cmd.Key)
 		}
 	case "delete", "delcond":
 		cmd.Op, cmd.Actor = "Delete", "writer"
@@ -1035,6 +1061,7 @@ func (g *Gen) try(m *Model, eng *Engine) *Cmd {
 			cmd.RetOnFail = r.Chance(0.3)
 			g.biasCond(cmd, mt, def, cmd.Key)
 			g.attrOperandCond(cmd, mt, def, cmd.Key)
+			g.fnCond(cmd, mt, def, cmd.Key)
 		}
 	case "get":
 		cmd.Op, cmd.Actor = "Get", "reader"
@@ -1599,6 +1626,87 @@ func (g *Gen) attrOperandCond(cmd *Cmd, mt *MTable, def TableDef, key Item) {
 	cmd.Cond, cmd.NeedN = e, []string{"n", "c"}
 }
 
+// fnCond: a function over an attribute the target item holds (contains,
+// begins_with, size) or may hold (attribute_type). Functions over an absent
+// attribute are outside the fragment (appendix A), hence only on the target of
+// a conditional write, under the NeedHas guard.
+func (g *Gen) fnCond(cmd *Cmd, mt *MTable, def TableDef, key Item) {
+	r := g.R
+	if mt == nil || !r.Chance(0.15) {
+		return
+	}
+	cur := mt.Items[KeyID(def, key)]
+	if cur == nil {
+		return
+	}
+	var cands []string
+	for _, a := range sortedKeys(cur) {
+		switch v := cur[a]; v.T {
+		case "S", "B", "SS", "NS":
+			cands = append(cands, a)
+		case "L":
+			if len(v.L) > 0 && (v.L[0].T == "S" || v.L[0].T == "N") {
+				cands = append(cands, a)
+			}
+		}
+	}
+	if len(cands) == 0 {
+		return
+	}
+	a := pick(r, cands)
+	v := cur[a]
+	p := &Path{Attr: a, Alias: r.Chance(0.3)}
+	need := v.T
+	var e *Expr
+	switch v.T {
+	case "S":
+		switch r.Intn(4) {
+		case 0:
+			x := v.S
+			if len(x) > 1 && r.Chance(0.7) {
+				x = x[:1+r.Intn(len(x)-1)]
+			}
+			e = &Expr{Op: "begins", Path: p, Vals: []AV{S(pick(r, []string{x, x, "zz"}))}}
+		case 1:
+			x := v.S
+			if len(x) > 1 && r.Chance(0.7) {
+				x = x[1:]
+			}
+			e = &Expr{Op: "contains", Path: p, Vals: []AV{S(pick(r, []string{x, x, "zz"}))}}
+		case 2:
+			e = &Expr{Op: "size" + pick(r, []string{"=", "<>", "<", "<=", ">", ">="}), Path: p, Vals: []AV{N(fmt.Sprint(len(v.S) + r.Intn(3) - 1))}}
+		default:
+			e = &Expr{Op: "type", Path: p, Vals: []AV{S(pick(r, []string{"S", "S", "N", "SS"}))}}
+			need = ""
+		}
+	case "B":
+		if r.Chance(0.5) && len(v.B) > 0 {
+			e = &Expr{Op: "begins", Path: p, Vals: []AV{Bin(v.B[:1]...)}}
+		} else {
+			e = &Expr{Op: "size" + pick(r, []string{"=", "<", ">="}), Path: p, Vals: []AV{N(fmt.Sprint(len(v.B) + r.Intn(3) - 1))}}
+		}
+	case "SS":
+		e = &Expr{Op: "contains", Path: p, Vals: []AV{S(pick(r, []string{v.SS[0], v.SS[len(v.SS)-1], "nope"}))}}
+	case "NS":
+		e = &Expr{Op: "contains", Path: p, Vals: []AV{N(pick(r, []string{v.SS[0], "424242"}))}}
+	case "L":
+		x := v.L[0]
+		if r.Chance(0.3) {
+			x = S("nope")
+		}
+		e = &Expr{Op: "contains", Path: p, Vals: []AV{x}}
+		need = "L:" + v.L[0].T
+	}
+	if r.Chance(0.3) {
+		e.Paren = true
+		e = &Expr{Op: "not", Args: []*Expr{e}}
+	}
+	cmd.Cond, cmd.NeedN = e, nil
+	if need != "" {
+		cmd.NeedHas = map[string]string{a: need}
+	}
+}
+
 // biasCond: half of the time make the condition's truth on the target differ
 // from its truth on some bystander (the shape the C05 statement singles out).
 func (g *Gen) biasCond(cmd *Cmd, mt *MTable, def TableDef, key Item) {
@@ -1657,7 +1765,11 @@ func (g *Gen) shape(cmd *Cmd, name string, def TableDef, query bool) {
 		cmd.Filter = nf.f
 	} else if r.Chance(0.4) {
 		g.inFilter = true
-		cmd.Filter = g.cond(name, def, 1)
+		depth := 1
+		if r.Chance(0.3) {
+			depth = 2
+		}
+		cmd.Filter = g.cond(name, def, depth)
 		g.inFilter = false
 		// a filter may not name key attributes of the queried table/index in DynamoDB
 		at := map[string]bool{}
